@@ -2,7 +2,7 @@
    Proved here: the node-level laws of the join on structured treespecs; "least upper bound" and the
    Python-level replication laws are decided by the correspondence/oracle run (DESIGN §7 C09). *)
 From OptreeModel Require Import Base Tree Flatten Unflatten Spec Ops.
-From OptreeProofs Require Import SpecProofs OrderProofs PrefixOrder JoinOrder FlattenGood.
+From OptreeProofs Require Import SpecProofs OrderProofs PrefixOrder JoinOrder JoinLeast FlattenGood.
 
 (* a leaf is replaced by the other operand's subtree, whichever side it is on *)
 Theorem C09_join_leaf_l : forall b, st_join st_leaf b = Ok b.
@@ -47,6 +47,16 @@ Theorem C09_join_is_upper_bound :
   fst (st_prefix a j) = true /\ fst (st_prefix b j) = true.
 Proof. exact join_upper_bound. Qed.
 Print Assumptions C09_join_is_upper_bound.
+
+(* ... and it is the LEAST one: whenever the two operands have any common upper bound u, the broadcast
+   succeeds and its result is a prefix of u. Together: broadcast_to_common_suffix computes the least
+   upper bound of its operands in the prefix order, and fails only when they have no upper bound. *)
+Theorem C09_join_is_least :
+  forall a b u, good a = true -> good b = true ->
+  fst (st_prefix a u) = true -> fst (st_prefix b u) = true ->
+  exists j, st_join a b = Ok j /\ fst (st_prefix j u) = true.
+Proof. exact join_least. Qed.
+Print Assumptions C09_join_is_least.
 
 Theorem C09_flatten_gives_good_treespecs :
   forall c o ls sp, wf_obj o = true -> flatten c o = Ok (ls, sp) ->
